@@ -124,7 +124,14 @@ func runC10(c *eng.Ctx, thorough bool) {
 				c.OK(s.Fn, "callers{"+h+"}", s.Call.Pos(), "called from tabled exception "+top)
 			default:
 				// the caller must itself be behind the sealed check at this call
-				if c.Cut(s.Fn, "call of helper "+h, []ssa.Instruction{s.Call}, eng.Or(eng.G(s.Fn, `^\^?b\.sealed$`, false), eng.G(s.Fn, `^\^?b\.keyring == nil$`, false)), nil) {
+				g := eng.Or(eng.G(s.Fn, `^\^?b\.sealed$`, false), eng.G(s.Fn, `^\^?b\.keyring == nil$`, false))
+				if len(g.Edges) == 0 && s.Fn.Parent() == nil && s.Fn.Object() != nil && !s.Fn.Object().Exported() {
+					// an unexported intermediate helper that never tests the flag: the
+					// obligation moves to its callers (one level; extracted helpers)
+					c10CallersGuarded(c, s.Fn, h, guarded, exceptions)
+					continue
+				}
+				if c.Cut(s.Fn, "call of helper "+h, []ssa.Instruction{s.Call}, g, nil) {
 					continue
 				}
 			}
@@ -218,18 +225,26 @@ func runC10(c *eng.Ctx, thorough bool) {
 			}
 		}
 		if c.Floor(f, "b.sealed = false", len(unseal), 1) {
-			c.Cut(f, "b.sealed = false", unseal, eng.GCallOK(f, `barrier\.\(\*AESGCMBarrier\)\.decrypt$`), nil)
+			// the decryption may sit in Unseal itself or in a same-package helper that Unseal
+			// calls with the AEAD and that returns decrypt's plaintext only on decrypt's success
+			decPat, aeadArg, decided := c10UnsealDecryptor(c, f)
+			if decided {
+				c.Clause("R2", "C10.3")
+				c.Cut(f, "b.sealed = false", unseal, eng.GCallOK(f, decPat+`$`), nil)
+			}
 			c.Cut(f, "b.sealed = false", unseal, eng.GCallOK(f, `barrier\.\(\*AESGCMBarrier\)\.recoverKeyring$`), nil)
 			c.Cut(f, "b.sealed = false", unseal, eng.GCallOK(f, `barrier\.\(\*AESGCMBarrier\)\.aeadFromKey$`), nil)
 			c.Clause("R5", "C10.3")
 			for _, a := range eng.Calls(f, `barrier\.\(\*AESGCMBarrier\)\.aeadFromKey$`) {
 				c.Prov(f, "key the AEAD is built from", a, a.Common().Args[1], `^param:key$`)
 			}
-			for _, d := range eng.Calls(f, `barrier\.\(\*AESGCMBarrier\)\.decrypt$`) {
-				c.Prov(f, "AEAD used to open the keyring", d, d.Common().Args[2], `^call:barrier\.\(\*AESGCMBarrier\)\.aeadFromKey#0$`)
-			}
-			for _, r := range eng.Calls(f, `barrier\.\(\*AESGCMBarrier\)\.recoverKeyring$`) {
-				c.Prov(f, "plaintext keyring recovered", r, r.Common().Args[1], `^call:barrier\.\(\*AESGCMBarrier\)\.decrypt#0$`)
+			if decided {
+				for _, d := range eng.Calls(f, decPat+`$`) {
+					c.Prov(f, "AEAD used to open the keyring", d, d.Common().Args[aeadArg], `^call:barrier\.\(\*AESGCMBarrier\)\.aeadFromKey#0$`)
+				}
+				for _, r := range eng.Calls(f, `barrier\.\(\*AESGCMBarrier\)\.recoverKeyring$`) {
+					c.Prov(f, "plaintext keyring recovered", r, r.Common().Args[1], `^call:`+decPat+`#0$`)
+				}
 			}
 		}
 	}
@@ -445,4 +460,95 @@ func runC10(c *eng.Ctx, thorough bool) {
 	// ---------- C10.6 rekey write sequences (R13)
 	c10Rekey(c)
 	runC10Gaps2(c)
+}
+
+// c10UnsealDecryptor: the callee through which f decrypts the keyring record —
+// decrypt itself when f calls it, otherwise a same-package function g that f
+// calls statically, that (a) calls decrypt with one of its own parameters as
+// AEAD, (b) returns without error only across decrypt's success edge and (c)
+// returns as first result only decrypt's plaintext on those returns. Returns
+// the callee pattern, the index of the AEAD argument at f's call, and whether
+// the rule can be evaluated (an undecided obligation is recorded otherwise).
+func c10UnsealDecryptor(c *eng.Ctx, f *ssa.Function) (string, int, bool) {
+	const dec = `barrier\.\(\*AESGCMBarrier\)\.decrypt`
+	if len(eng.Calls(f, dec+`$`)) > 0 {
+		return dec, 2, true
+	}
+	site := "sink{b.sealed = false} guard{success edge of " + dec + "$}"
+	c.Clause("R2", "C10.3")
+	for _, b := range f.Blocks {
+		for _, in := range b.Instrs {
+			ci, ok := in.(ssa.CallInstruction)
+			if !ok {
+				continue
+			}
+			g := ci.Common().StaticCallee()
+			if g == nil || len(g.Blocks) == 0 || !eng.InPkg(g, "barrier") || g.Signature.Results().Len() != 2 {
+				continue
+			}
+			ds := eng.Calls(g, dec+`$`)
+			if len(ds) == 0 {
+				continue
+			}
+			// (a) the AEAD is a parameter of g
+			idx := -1
+			for _, d := range ds {
+				p, isP := d.Common().Args[2].(*ssa.Parameter)
+				if !isP {
+					idx = -1
+					break
+				}
+				for i, q := range g.Params {
+					if q == p {
+						idx = i
+					}
+				}
+			}
+			if idx < 0 {
+				continue
+			}
+			// (b), (c)
+			okG := eng.Reach(eng.Query{Fn: g, Blocked: eng.GCallOK(g, dec+`$`).Edges, Target: eng.IsTarget(eng.SuccessReturns(g, 1))}) == nil
+			for _, r := range eng.SuccessReturns(g, 1) {
+				vals, _, _ := eng.ReturnVals(r.(*ssa.Return), 0)
+				for _, v := range vals {
+					if ok, _, _ := eng.OriginsMatch(v, `^call:`+dec+`#0$`); !ok {
+						okG = false
+					}
+				}
+			}
+			if !okG {
+				continue
+			}
+			name := eng.FuncName(g)
+			c.OK(g, "keyring decryption helper forwards decrypt", g.Pos(), name+" returns decrypt's plaintext, and no error, only across decrypt's success edge")
+			return reQuote(name), idx, true
+		}
+	}
+	c.Undecided(f, site, f.Pos(), "Unseal neither calls decrypt nor a same-package helper that verifiably forwards it (moved? the rule cannot be evaluated)")
+	return "", 0, false
+}
+
+// c10CallersGuarded: mid is an unexported function that calls a lock-free
+// barrier helper without testing the sealed flag itself; every static call of
+// mid must then come from a function of the guarded family, from a tabled
+// exception, or lie behind the !sealed edge in its caller.
+func c10CallersGuarded(c *eng.Ctx, mid *ssa.Function, helper string, guarded map[string]bool, exceptions map[string]string) {
+	name := eng.FuncName(mid)
+	sites := c.P.FindCalls(mustStatic(c, name), nil)
+	if len(sites) == 0 {
+		c.Undecided(mid, "callers{"+helper+"}", mid.Pos(), name+" calls the helper without testing the sealed flag and has no static caller that could be checked instead (moved? the rule cannot be evaluated)")
+		return
+	}
+	for _, s := range sites {
+		caller, top := eng.FuncName(s.Fn), eng.FuncName(eng.TopFunc(s.Fn))
+		switch {
+		case guarded[caller] || guarded[top]:
+			c.OK(s.Fn, "callers{"+helper+" via "+name+"}", s.Call.Pos(), "called from a function that crossed the !sealed edge")
+		case exceptions[top] != "":
+			c.OK(s.Fn, "callers{"+helper+" via "+name+"}", s.Call.Pos(), "called from tabled exception "+top)
+		default:
+			c.Cut(s.Fn, "call of "+name+" (reaches helper "+helper+")", []ssa.Instruction{s.Call}, eng.Or(eng.G(s.Fn, `^\^?b\.sealed$`, false), eng.G(s.Fn, `^\^?b\.keyring == nil$`, false)), nil)
+		}
+	}
 }
